@@ -686,7 +686,7 @@ PROPS = {
     'C04': dict(lean_modules=['SfxProps.C04', 'SfxProps.C04Prim'], bins=['conv'], profiles=['chk', 'rel'], gen=gen_C04x),
     'C05': dict(lean_modules=['SfxProps.C05'], bins=['conv'], profiles=['chk', 'rel'], gen=gen_C05x),
     'C12': dict(lean_modules=['SfxProps.C12', 'SfxProps.C12Tan', 'SfxProps.C12Pairs'], bins=['math'], profiles=['chk', 'rel'], gen=gen_C12),
-    'C13': dict(lean_modules=['SfxProps.C13'], bins=['math'], profiles=['rel'], gen=gen_C13, oracle=True),
+    'C13': dict(lean_modules=['SfxProps.C13', 'SfxProps.C13Real'], bins=['math'], profiles=['rel'], gen=gen_C13, oracle=True),
     'C14': dict(lean_modules=['SfxProps.C14'], bins=['math'], profiles=['rel'], gen=gen_C14, oracle=True),
     'C15': dict(lean_modules=['SfxProps.C15', 'SfxProps.C15Acc'], bins=['math'], profiles=['rel'], gen=gen_C15, oracle=True),
     'C16': dict(lean_modules=['SfxProps.C16', 'SfxProps.C16Acc'], bins=['math'], profiles=['rel'], gen=gen_C16, oracle=True),
